@@ -11,9 +11,9 @@ PROP = {
     "n": {"quick": 300, "thorough": 1500},
     "shards": {"quick": 1, "thorough": 8},
     "cases_per_file": 30,
-    "level_text": "Coq theorems: laws of the reference storage (read-your-write, frame, exact sorted half-open range, batch = pointwise, empty value present, conditional ops decide on the current non-expired value and have exactly one winner among any number of concurrent callers in every interleaving (one-transaction model; flag read from the source), TTL visibility until the expiry of the most recent successful write) and refinement of the bbolt model (safeKey keys, ttl index, hourly cleaner, cursor scan) to the reference for all histories incl. clock advances and cleaner runs; mem and bbolt are tied to their models by replaying generated histories inside Coq on every run, and every observed output is also judged directly against the reference",
+    "level_text": "Coq theorems: laws of the reference storage (read-your-write, frame, exact sorted half-open range, batch = pointwise, empty value present, conditional ops decide on the current non-expired value and have exactly one winner among any number of concurrent callers in every interleaving (one-transaction model; flag read from the source), TTL visibility until the expiry of the most recent successful write) and refinement of the bbolt model (safeKey keys, ttl index, hourly cleaner, cursor scan) to the reference for all histories incl. clock advances and cleaner runs; mem and bbolt are tied to their models by replaying generated histories inside Coq on every run, and every observed output is also judged directly against the reference (a plain read touching a row written with a TTL is left open in its value, as the interface leaves it; but a GetBatch item and a Get of the same key with only read operations between them must carry the same found flag and value on every backend, TTL rows included - theorem batch_reads_agree_with_point_reads for the reference and the bbolt model at every state, and the link theorem covers the clause)",
     "level_note": "trusted: Coq kernel/vm_compute, translator (bbolt decision points), harness; modelled not verified: go.etcd.io/bbolt B-tree as a sorted map with cursor semantics, Go maps, the goroutine scheduling of the cleaner (the harness waits until it re-armed its timer); Cassandra/DynamoDB cannot run offline and are not claimed; concurrent callers of conditional ops are tested on the real backends (goroutines released together; exactly one must win per key) next to the theorem about the one-transaction model - the Go scheduler decides which interleavings that test sees",
-    "rule": "history = 5-45 ops (Put/PutBatch/Get/GetBatch/Read/InsertIfNotExists/CompareAndSwap/CompareAndDelete/TTLGet/TTLRead/QueryTTL/Advance) over colliding key alphabets (nil, empty, 00 00, 01, ff, ff ff, prefixes), values incl. empty, TTLs 0..3601 s, advances around 1 s, TTL and the 1 h cleaner period, plus a final full sweep; alternating mem/bbolt; four concurrency cases per run (mem: 8 goroutines x 600 keys and 16 x 300; bbolt: 4 and 6 goroutines x 25 keys; goroutines released together, conditional insert then compare-and-swap); corpus probes first; non-trivial = some read-type op addresses a partition written earlier; distinct = backend + exact op list",
+    "rule": "history = 5-45 generated ops (up to about 80 with the follow-up reads and probes) (Put/PutBatch/Get/GetBatch/Read/InsertIfNotExists/CompareAndSwap/CompareAndDelete/TTLGet/TTLRead/QueryTTL/Advance) over colliding key alphabets (nil, empty, 00 00, 01, ff, ff ff, prefixes), values incl. empty, TTLs 0..3601 s, advances around 1 s, TTL and the 1 h cleaner period, plus a final full sweep; after 3 of 5 GetBatch a Get of each of its keys follows at once (1 in 6 with a TTLGet/QueryTTL between), after 1 of 3 Get a GetBatch containing its key; in 3 of 5 histories a batch/point probe: one or two rows written with a TTL of 1-3 s (insert, or put + compare-and-swap, or put + delete + insert) and sometimes a plain one, the clock moved to just before / onto / past the expiry short of the hourly cleaner, or across it, then GetBatch followed by Get of every key or Get followed by GetBatch, once or twice; alternating mem/bbolt; four concurrency cases per run (mem: 8 goroutines x 600 keys and 16 x 300; bbolt: 4 and 6 goroutines x 25 keys; goroutines released together, conditional insert then compare-and-swap); corpus probes first; non-trivial = some read-type op addresses a partition written earlier; distinct = backend + exact op list",
     "trusted_base": ["modelled not verified: bbolt B-tree/cursor, Go map, cleaner goroutine scheduling"],
     "assumptions": ["non-empty partition keys; histories are sequential (concurrent callers only in the conditional-operation cases); clock advances are whole milliseconds"],
 }
